@@ -474,11 +474,18 @@ def direct_projects(rng, nrandom=10):
                           [((pa, pb), ()), ((c,), (pa, pb))], R(c, pb)))
   out.append(_direct_spec("requested files only in the first group: later groups are skipped",
                           [((a,), ()), ((b,), (a,)), ((c, d), (b,)), ((e,), (c, d))], R(a)))
+  sdep = _mod("src", "sysdep.py", "System")
+  out.append(_direct_spec("local module behind a system module that itself depends on a local module",
+                          [((a,), ()), ((sdep,), (a,)), ((b,), (sdep,)), ((c,), (b,))], R(b)))
+  out.append(_direct_spec("system module with local deps next to a direct local dep",
+                          [((a,), ()), ((d,), ()), ((sdep,), (a, d)), ((b,), (sdep, d)), ((c,), (b, sdep))],
+                          R(c, b)))
   for k in range(nrandom):
     names = [f"g{k}_{i}" for i in range(rng.randint(3, 8))]
     mods = [_mod("src", f"{x}.py") for x in names]
     groups, i = [((SYS,), ()), ((SYS2,), ()), ((BUILTIN,), ())], 0   # every dep is itself a node
     earlier = []
+    sysdeps = []
     while i < len(mods):
       size = rng.choice([1, 1, 1, 2, 2, 3])
       g = mods[i:i + size]
@@ -488,6 +495,12 @@ def direct_projects(rng, nrandom=10):
       dd = [m for m in earlier if rng.random() < 0.4]
       if rng.random() < 0.2:
         dd.append(rng.choice([SYS, BUILTIN, SYS2]))
+      if earlier and rng.random() < 0.25:
+        # a system module that depends on local modules; later groups may depend on it
+        sm = _mod("src", f"sysdep{k}_{i}.py", "System")
+        groups.append(((sm,), tuple(m for m in earlier if m["kind"] == "Local" and rng.random() < 0.6)))
+        sysdeps.append(sm)
+      dd += [m for m in sysdeps if rng.random() < 0.5]
       groups.append((tuple(g), tuple(dd)))
       earlier += [m for m in g if m["kind"] == "Local"]
     req = rng.sample(mods, rng.randint(1, len(mods)))
